@@ -195,7 +195,7 @@ def discharge_all(obs: list, second_opinion: bool = False) -> None:
     retry_unknown(obs)
 
 
-def retry_unknown(obs: list, timeout_ms: int = 20000, limit: int = 6) -> None:
+def retry_unknown(obs: list, timeout_ms: int = int(os.environ.get("PYVC_RETRY_MS", "20000")), limit: int = 6) -> None:
     """Verdicts must not flip because the machine is busy: an obligation left `unknown` by a timeout is tried again, proof
     only, conjunct by conjunct in a fresh context with a much longer budget. Only `unsat` changes anything."""
     n = 0
